@@ -238,6 +238,8 @@ void* heap_malloc(int mgr, size_t size, bool zero, const char* what) {
     CallCtx* c = g.cur;
     int saved_in = c->in_call;
     c->in_call = false;   // harness code from here on
+    if (saved_in && mgr > 0 && c->expect_mgr > 0 && mgr != c->expect_mgr)
+        violate(V_BYPASS, "the call was given manager m" + std::to_string(c->expect_mgr) + " but a request (" + what + ") arrived at manager m" + std::to_string(mgr), false);
     void* res = nullptr;
     bool counted = saved_in;
     if (counted) c->req_count++;
@@ -348,6 +350,8 @@ void heap_free(int mgr, void* p) {
     int saved_in = c->in_call;
     c->in_call = false;
     if (saved_in) c->free_count++;
+    if (saved_in && mgr > 0 && c->expect_mgr > 0 && mgr != c->expect_mgr)
+        violate(V_BYPASS, "the call was given manager m" + std::to_string(c->expect_mgr) + " but a release arrived at manager m" + std::to_string(mgr), false);
     if (!p) {
         g.hs.free_null++;
         event("m%d free(NULL)", mgr);
@@ -474,7 +478,7 @@ void check_access(uintptr_t a, size_t n, bool store) {
         if (lo < g_image.size() && a >= g_image[lo].lo && a + n <= g_image[lo].hi) {
             if (!store) return;
             c->in_call = false;
-            violate(V_STORE_STATIC, "store of " + std::to_string(n) + (g_image[lo].tls ? " byte(s) into thread-local static data" : " byte(s) into static/global data of the program image"), true);
+            violate(V_STORE_STATIC, "store of " + std::to_string(n) + (g_image[lo].tls ? " byte(s) into thread-local static data" : " byte(s) into static/global data of the program image"), false);   // the run goes on: the memory is the library's own, and the consequence (cross-talk between callers) is what other properties judge
             c->in_call = true;
             return;
         }
@@ -503,7 +507,7 @@ static void on_signal(int sig, siginfo_t* si, void*) {
         char buf[160];
         bool incall = c->in_call;
         c->in_call = false;
-        snprintf(buf, sizeof buf, "signal %d (%s) %s at %s", sig, strsignal(sig), incall ? "inside library call" : "inside allocator callback/harness during library call",
+        snprintf(buf, sizeof buf, "signal %d (%s%s) %s at %s", sig, strsignal(sig), sig == SIGILL ? ": bounds-check trap for a local array" : "", incall ? "inside library call" : "inside allocator callback/harness during library call",
                  (sig == SIGSEGV || sig == SIGBUS) ? addr_name(si->si_addr).c_str() : "-");
         if (g.violations.size() < 16) { Violation v; v.kind = V_CRASH; v.op = c->op; v.detail = buf; g.violations.push_back(v); }
         event("VIOLATION crash op=%d %s", c->op, buf);
@@ -703,6 +707,22 @@ int sim_swprintf(wchar_t* buf, size_t n, const wchar_t* fmt, ...) {
     va_list ap; va_start(ap, fmt); int r = vswprintf(buf, n, fmt, ap); va_end(ap);
     if (n) { size_t w = r < 0 ? n : ((size_t)r + 1 < n ? (size_t)r + 1 : n); check_access((uintptr_t)buf, w * sizeof(wchar_t), true); }
     return r;
+}
+// -fsanitize=bounds on the library objects: an index outside a fixed-size array (the library's own stack arrays are not covered by
+// the access monitor, which allows the whole stack of the running task). Indexing through a pointer into a local array is checked
+// too (local-bounds), but as a trap instruction: it arrives as SIGILL and is reported by the signal handler.
+struct UbsanSrcLoc { const char* file; uint32_t line, col; };
+struct UbsanOutOfBounds { UbsanSrcLoc loc; const void* array_type; const void* index_type; };
+void __ubsan_handle_out_of_bounds(UbsanOutOfBounds* d, uintptr_t index) {
+    CallCtx* c = g.cur;
+    bool in = c->in_call;
+    c->in_call = false;
+    const char* f = d && d->loc.file ? d->loc.file : "?";
+    const char* sl = strrchr(f, '/');
+    char buf[256];
+    snprintf(buf, sizeof buf, "index %ld is outside the bounds of a fixed-size array at %s:%u", (long)index, sl ? sl + 1 : f, d ? d->loc.line : 0);
+    violate(V_WILD_ACCESS, buf, true);
+    c->in_call = in;
 }
 void sim_assert_fail(const char* expr, const char* file, unsigned line, const char*) {
     CallCtx* c = g.cur;
